@@ -668,4 +668,29 @@ def guardFree : Nat → List Char → List Arg → Bool
        | .ok _ _ rest args => guardFree fuel rest args
        | _ => true)
 
+/-! ### round 3b -/
+
+/-- the arguments with which the directive at `begin` calls print_i — `(u, is_signed,
+width, min_len, ops, base)` as `convert` passes them (d i: the fetched value,
+signed, base 10; u o x X; p: 16 digits, WITH_SPEC | PREC_IS_GIVEN | SPEC_POINTER) —
+or `none` when it does not call print_i (another conversion, a missing or
+wrongly typed argument).  `directive_printICall` (LemR3b) shows that this IS the
+call `directive` makes. -/
+def printICall (begin : List Char) (args : List Arg) : Option (BitVec 64 × Bool × Int × Int × Ops × Nat) :=
+  match parseOpts begin args with
+  | none => none
+  | some (width, precision, s, args, ops) =>
+    let c := hd s
+    let ops := if c.isUpper then { ops with upper := true } else ops
+    if c = 'd' || c = 'i' then
+      (fetchSigned ops.len args).map fun (u, _) => (u, true, width, precision, ops, 10)
+    else if c = 'u' || c = 'o' || c = 'x' || c = 'X' then
+      (fetchUnsigned ops.len args).map fun (u, _) =>
+        (u, false, width, precision, ops, if c = 'u' then 10 else if c = 'o' then 8 else 16)
+    else if c = 'p' then
+      match args with
+      | .ptr v :: _ => some (v, false, width, 16, { ops with spec := true, prec := true, ptr := true }, 16)
+      | _ => none
+    else none
+
 end Igris.C06
